@@ -257,3 +257,31 @@ Proof.
     rewrite (table_entry_core2 _ _ (t_columns td)) by apply clear_inline_core.
     apply (entry_believed t (mkTable (t_name td) (t_description td) (t_columns td) new_cs) scols new_cs); try reflexivity; try assumption.
 Qed.
+
+(* RemoveConstraint of the primary key, spelled out: the table is rebuilt without a key.  [no_inline_pk] is the negation of
+   known_C02_inline_pk_survives' classifier (no column still carries an inline primary_key field); the [forallb] says the
+   removed constraint is the table's key as recorded (same auto_increment flag and column list) — remove_constraint.rs drops
+   whatever primary key there is. *)
+Corollary sim_sqlite_remove_primary_key : forall fk s c t a cols td s' l c',
+  let k := CPrimaryKey a cols in
+  Sim s c -> ci_exact s t = true -> temp_free s t = true -> unique_table s t = true ->
+  find_table t s = Some td ->
+  forallb (fun c0 => Bool.eqb (keep_after_remove k c0) (negb (constraint_eqb c0 k))) (t_constraints td) = true ->
+  nodup_names (map c_name (t_columns td)) = true -> no_inline_pk td = true ->
+  apply_action s (RemoveConstraint t k) = Ok s' ->
+  gen s [] (RemoveConstraint t k) = GOk l ->
+  exec_all fk c l 0 = Ok c' ->
+  Sim s' c'.
+Proof.
+  intros fk s c t a cols td s' l c' k HS Hci Htf Hu Hfind Hkeep Hnd Hinl Happ Hgen Hrun.
+  eapply (sim_sqlite_remove_constraint_rebuild fk s c t k td); eauto; [exact I|].
+  unfold pk_sane. cbn [t_columns t_constraints]. rewrite Hnd. cbn [andb].
+  assert (E : filter is_pk (filter (fun c0 => negb (constraint_eqb c0 k)) (t_constraints td)) = []).
+  { rewrite forallb_forall in Hkeep. induction (t_constraints td) as [|c0 cs IH]; [reflexivity|]. cbn [filter].
+    assert (H0 := Hkeep c0 (or_introl eq_refl)). apply Bool.eqb_prop in H0.
+    destruct (negb (constraint_eqb c0 k)) eqn:N.
+    - cbn [filter]. destruct c0; cbn [is_pk]; try (apply IH; intros x Hx; apply Hkeep; now right).
+      unfold k in H0. cbn [keep_after_remove] in H0. discriminate.
+    - apply IH. intros x Hx. apply Hkeep. now right. }
+  rewrite E. exact Hinl.
+Qed.
